@@ -94,12 +94,48 @@ func checkQuantifier(r *Run, prog *Program, a *Anchors, pfx string) {
 				continue
 			}
 			c, ok := bo.Y.(*ssa.Call)
-			if !ok || !isReflectMethod(c.Call.StaticCallee(), "Len") {
+			if !ok {
 				continue
 			}
-			// canonical ascending induction variable: phi(0, phi+1)
+			rangeForm := false
+			if !isReflectMethod(c.Call.StaticCallee(), "Len") {
+				// `for _, k := range keys` with keys = v.MapKeys(): i+1 < len(keys)
+				bi, isB := c.Call.Value.(*ssa.Builtin)
+				if !isB || bi.Name() != "len" || len(c.Call.Args) != 1 {
+					continue
+				}
+				root, _ := rootOf(c.Call.Args[0])
+				if al, isAl := root.(*ssa.Alloc); isAl && al.Referrers() != nil {
+					// the keys live in a local variable (captured by the closure that sorts them): its one assignment
+					var only ssa.Value
+					n := 0
+					for _, u := range *al.Referrers() {
+						if st, ok := u.(*ssa.Store); ok && st.Addr == ssa.Value(al) {
+							n++
+							only = st.Val
+						}
+					}
+					if n == 1 {
+						root = only
+					}
+				}
+				mk, isMK := root.(*ssa.Call)
+				if !isMK || !isReflectMethod(mk.Call.StaticCallee(), "MapKeys") {
+					continue
+				}
+				rangeForm = true
+			}
+			// canonical ascending induction variable: phi(0, phi+1) — or, for range, phi(-1, phi+1) tested after the increment
 			loopOK := false
-			if phi, ok := bo.X.(*ssa.Phi); ok && len(phi.Edges) == 2 {
+			if rangeForm {
+				if add, ok := bo.X.(*ssa.BinOp); ok && add.Op == token.ADD {
+					if phi, ok := add.X.(*ssa.Phi); ok {
+						start, asc := ascendingInduction(phi)
+						loopOK = asc && start == -1
+					}
+				}
+			}
+			if phi, ok := bo.X.(*ssa.Phi); ok && len(phi.Edges) == 2 && !rangeForm {
 				zero, step := false, false
 				for _, e := range phi.Edges {
 					if c, ok := e.(*ssa.Const); ok && c.Value != nil && c.Value.Kind() == constant.Int {
@@ -284,6 +320,14 @@ func checkQuantifier(r *Run, prog *Program, a *Anchors, pfx string) {
 					}
 					base, parts := appendChain(sm.St, ev.Args[2])
 					okCopy := base != nil && base.IsNil() && len(parts) >= 1 && parts[0].Args[1].Key() == pOpt.Key()
+					if !okCopy && base != nil && base.K == sFresh && len(parts) >= 1 && parts[0].Args[1].Key() == pOpt.Key() {
+						// make([]Option, 0, n) + append(…, opt...): an empty slice made here, then the incoming options
+						if mk, isMk := base.V.(*ssa.MakeSlice); isMk {
+							if l := ps.sym(sm.St, mk.Len); l.K == sConst && l.C != nil && constant.Sign(l.C) == 0 {
+								okCopy = true
+							}
+						}
+					}
 					if !okCopy && base != nil && base.K == sFresh {
 						// make([]Option, len(opt), …) + copy(innerOpt, opt): the other spelling of a fresh copy
 						if mk, isMk := base.V.(*ssa.MakeSlice); isMk {
